@@ -22,6 +22,7 @@ mod common;
 mod e1;
 mod e2;
 mod e3;
+mod large;
 mod model;
 mod oracle;
 mod zachary;
@@ -87,6 +88,9 @@ fn main() {
             std::process::exit(2);
         }
     };
+    if args[1] == "c19one" {
+        std::process::exit(c19::one(&args[2]));
+    }
     if args[1] == "c07d" {
         c07d::main(&args[2]);
         return;
